@@ -402,7 +402,7 @@ func init() {
 					}
 				}
 			}
-			n, traces, _ := vh.Explore(world, -1, e.Pick(250, 8000), 300, 0)
+			n, traces, _ := vh.Explore(world, -1, e.Pick(250, 2000), 300, 0)
 			o.Eval(int64(n))
 			for t := range traces {
 				o.Distinct(fmt.Sprintf("%v|%s", c, t))
